@@ -2,6 +2,7 @@
 from __future__ import annotations
 
 import copy
+import re
 import types
 
 import z3
@@ -90,19 +91,25 @@ class RequireShape(Shape):
         from bespokeasm.assembler.line_identifier import LineIdentifier
         req = [env.sym(f'r_{k}', 0, 1000) for k in ('maj', 'min', 'pat')]
         dec = [env.sym(f'd_{k}', 0, 1000) for k in ('maj', 'min', 'pat')]
+        dpre = env.sym('d_pre', 0, 1)            # 1: the ISA declares a pre-release (`b1`) of d_maj.d_min.d_pat
         op = self.params['op']
         if env.symbolic:
             from sx import shims
-            shims._VersionStub.overrides = {'1.2.3': req + [0], '4.5.6': dec + [0]}
+            shims._VersionStub.overrides = {'1.2.3': req + [0], '4.5.6': dec + [-dpre]}
             instr = f'#require "{self.params.get("lang", "lang")} {op} 1.2.3"'
             model = types.SimpleNamespace(isa_name='lang', isa_version='4.5.6')
         else:
             instr = f'#require "{self.params.get("lang", "lang")} {op} {req[0]}.{req[1]}.{req[2]}"'
-            model = types.SimpleNamespace(isa_name='lang', isa_version=f'{dec[0]}.{dec[1]}.{dec[2]}')
+            model = types.SimpleNamespace(isa_name='lang', isa_version=f'{dec[0]}.{dec[1]}.{dec[2]}' + ('b1' if dpre else ''))
         try:
             RequiredLanguageLine(LineIdentifier(1, 'x'), instr, '', None, model, 0)
         except SystemExit as e:
             return ('rejected', str(e.code)[:80])
+        except (TypeError, AttributeError, ValueError) as e:
+            if env.symbolic:
+                # the code does something with the versions that the symbolic version objects do not model
+                raise E.Inconclusive(f'version objects used in an unmodelled way: {type(e).__name__}: {e}')
+            raise
         finally:
             if env.symbolic:
                 from sx import shims
@@ -110,8 +117,8 @@ class RequireShape(Shape):
         return ('ok', '')
 
     def judge(self, env, out):
-        r = [env.z(f'r_{k}') for k in ('maj', 'min', 'pat')]
-        d = [env.z(f'd_{k}') for k in ('maj', 'min', 'pat')]
+        r = [env.z(f'r_{k}') for k in ('maj', 'min', 'pat')] + [E.bvval(0)]
+        d = [env.z(f'd_{k}') for k in ('maj', 'min', 'pat')] + [-env.z('d_pre')]
         eq = z3.And(*[a == b for a, b in zip(d, r)])
         sat = {'==': eq, '>=': lex(d, r, '>', True), '<=': lex(d, r, '<', True), '>': lex(d, r, '>', False),
                '<': lex(d, r, '<', False)}[self.params['op']]
@@ -123,6 +130,63 @@ class RequireShape(Shape):
 
     def summarize(self, out, model):
         return {'kind': out[0]}
+
+
+VERSION_TEXTS = ['0.9.0', '1.0.0a1', '1.0.0b2', '1.0.0rc1', '1.0.0', '1.0.1', '1.2.0', '1.10.0', '2.0.0rc2', '2.0.0', '10.0.0']
+
+
+def version_key(text):
+    """semantic-version order written from the rule: release triple, then alpha < beta < rc < final"""
+    m = re.match(r'^(\d+)\.(\d+)\.(\d+)(?:(a|b|rc)(\d+))?$', text)
+    phase = {'a': 0, 'b': 1, 'rc': 2, None: 3}[m.group(4)]
+    return (int(m.group(1)), int(m.group(2)), int(m.group(3)), phase, int(m.group(5) or 0))
+
+
+class RequireCatalogue(Shape):
+    """UNIT, no stub: `#require` on the real version objects for every pair of texts of a catalogue (incl. pre-releases);
+    the pair is a K-way choice of the engine, each choice a concrete run"""
+    kind = 'UNIT'
+    width = 32
+    max_paths = 400
+
+    def expected_outcomes(self):
+        return ['ok', 'rejected']
+
+    def run(self, env):
+        from bespokeasm.assembler.line_object.preprocessor_line.required_language import RequiredLanguageLine
+        from bespokeasm.assembler.line_identifier import LineIdentifier
+        n = len(VERSION_TEXTS)
+        i, j = env.sym('declared', 0, n - 1), env.sym('required', 0, n - 1)
+        if env.symbolic:
+            i = env.ctx.choose(i.e, rng=(0, n - 1))
+            j = env.ctx.choose(j.e, rng=(0, n - 1))
+        self.pair = (VERSION_TEXTS[i], VERSION_TEXTS[j])
+        instr = f'#require "lang {self.params["op"]} {self.pair[1]}"'
+        model = types.SimpleNamespace(isa_name='lang', isa_version=self.pair[0])
+        import packaging.version
+        import bespokeasm.assembler.line_object.preprocessor_line.required_language as rl
+        saved, rl.version = rl.version, packaging.version          # the real parser, also if another shape stubbed it
+        try:
+            RequiredLanguageLine(LineIdentifier(1, 'x'), instr, '', None, model, 0)
+        except SystemExit as e:
+            return ('rejected', str(e.code)[:80])
+        finally:
+            rl.version = saved
+        return ('ok', '')
+
+    def judge(self, env, out):
+        import operator
+        d, r = version_key(self.pair[0]), version_key(self.pair[1])
+        sat = {'==': operator.eq, '>=': operator.ge, '<=': operator.le, '>': operator.gt, '<': operator.lt}[self.params['op']](d, r)
+        if out[0] == 'ok':
+            return [('C19.require_honoured_implies_comparison_holds_in_version_order', z3.BoolVal(sat))]
+        return [('C19.require_refused_implies_comparison_fails_in_version_order', z3.BoolVal(not sat))]
+
+    def summarize(self, out, model):
+        return {'kind': out[0]}
+
+    def describe(self):
+        return {'shape': self.sid, 'versions': VERSION_TEXTS}
 
 
 class ConfigShape(PipeShape):
@@ -295,6 +359,8 @@ def shapes(tier, seed):
     for op in ('==', '>=', '<=', '>', '<'):
         S.append(RequireShape(f'require:{op}', op=op))
     S.append(RequireShape('require:other-language', op='>=', lang='other'))
+    for op in ('==', '>=', '<=', '>', '<'):
+        S.append(RequireCatalogue(f'require-catalogue:{op}', op=op))
     S += numeric_family(good_isa)
     # (d) corruption catalogue -------------------------------------------------------------------------------------
     S.append(CorruptionShape('wellformed:baseline', config=good_isa(), files={'main.asm': 'mov ra, 5\nbset 3\nmov2 rb, 1\n'},
